@@ -14,8 +14,8 @@ structure Inv (K : Comp S C O) (J : Nat → S → C → Prop) : Prop where
   noLeak : ∀ c o, K.leak c o = c
 
 structure Rel (K : Comp S C O) (J : Nat → S → C → Prop) : Prop extends Inv K J where
-  /-- success and storage effect of a call do not depend on the cache -/
-  blind : ∀ s c₁ c₂ h o, (K.exec s c₁ h o).map (·.1) = (K.exec s c₂ h o).map (·.1)
+  /-- success and storage effect of a call do not depend on WHICH fitting cache the node holds -/
+  blind : ∀ s c₁ c₂ h o, J h s c₁ → J h s c₂ → (K.exec s c₁ h o).map (·.1) = (K.exec s c₂ h o).map (·.1)
 
 theorem leaks_id' (K : Comp S C O) (hl : ∀ c o, K.leak c o = c) (ops : List O) : ∀ c, K.leaks c ops = c := by
   induction ops with
@@ -54,12 +54,12 @@ theorem runBlock_rel (K : Comp S C O) {J} (hR : K.Inv J) (h : Nat) (txs : List (
   | cons tx txs ih => intro s c hj; simp only [runBlock]; exact ih _ _ (runTx_rel K hR h s c tx hj)
 
 theorem runOps_blind (K : Comp S C O) {J} (hR : K.Rel J) (h : Nat) (ops : List O) :
-    ∀ s c₁ c₂, (K.runOps s c₁ h ops).map (·.1) = (K.runOps s c₂ h ops).map (·.1) := by
+    ∀ s c₁ c₂, J h s c₁ → J h s c₂ → (K.runOps s c₁ h ops).map (·.1) = (K.runOps s c₂ h ops).map (·.1) := by
   induction ops with
-  | nil => intro s c₁ c₂; rfl
+  | nil => intro s c₁ c₂ _ _; rfl
   | cons o os ih =>
-    intro s c₁ c₂
-    have hb := hR.blind s c₁ c₂ h o
+    intro s c₁ c₂ j1 j2
+    have hb := hR.blind s c₁ c₂ h o j1 j2
     simp only [runOps]
     cases h1 : K.exec s c₁ h o with
     | none =>
@@ -75,11 +75,12 @@ theorem runOps_blind (K : Comp S C O) {J} (hR : K.Rel J) (h : Nat) (ops : List O
         rw [h1, h2] at hb
         simp only [Option.map_some, Option.some.injEq] at hb
         subst hb
-        exact ih s1 d1 d2
+        exact ih s1 d1 d2 (hR.step h s c₁ o s1 d1 j1 h1) (hR.step h s c₂ o s1 d2 j2 h2)
 
-theorem runTx_blind (K : Comp S C O) {J} (hR : K.Rel J) (h : Nat) (s : S) (c₁ c₂ : C) (tx : CTx O) :
+theorem runTx_blind (K : Comp S C O) {J} (hR : K.Rel J) (h : Nat) (s : S) (c₁ c₂ : C) (tx : CTx O)
+    (j1 : J h s c₁) (j2 : J h s c₂) :
     (K.runTx s c₁ h tx).1 = (K.runTx s c₂ h tx).1 ∧ K.txOk s c₁ h tx = K.txOk s c₂ h tx := by
-  have hb := runOps_blind K hR h tx.ops s c₁ c₂
+  have hb := runOps_blind K hR h tx.ops s c₁ c₂ j1 j2
   unfold runTx txOk
   cases h1 : K.runOps s c₁ h tx.ops with
   | none =>
@@ -100,16 +101,20 @@ theorem runTx_blind (K : Comp S C O) {J} (hR : K.Rel J) (h : Nat) (s : S) (c₁ 
       · simp [ht]
 
 theorem runBlock_blind (K : Comp S C O) {J} (hR : K.Rel J) (h : Nat) (txs : List (CTx O)) :
-    ∀ s c₁ c₂, (K.runBlock s c₁ h txs).1 = (K.runBlock s c₂ h txs).1 ∧ K.runBlockR s c₁ h txs = K.runBlockR s c₂ h txs := by
+    ∀ s c₁ c₂, J h s c₁ → J h s c₂ →
+      (K.runBlock s c₁ h txs).1 = (K.runBlock s c₂ h txs).1 ∧ K.runBlockR s c₁ h txs = K.runBlockR s c₂ h txs := by
   induction txs with
-  | nil => intro s c₁ c₂; exact ⟨rfl, rfl⟩
+  | nil => intro s c₁ c₂ _ _; exact ⟨rfl, rfl⟩
   | cons tx txs ih =>
-    intro s c₁ c₂
-    have ht := runTx_blind K hR h s c₁ c₂ tx
+    intro s c₁ c₂ j1 j2
+    have ht := runTx_blind K hR h s c₁ c₂ tx j1 j2
+    have k1 := runTx_rel K hR.toInv h s c₁ tx j1
+    have k2 := runTx_rel K hR.toInv h s c₂ tx j2
     simp only [runBlock, runBlockR]
-    rw [ht.1, ht.2]
-    have := ih (K.runTx s c₂ h tx).1 (K.runTx s c₁ h tx).2 (K.runTx s c₂ h tx).2
-    rw [← ht.1] at this ⊢
+    rw [ht.2]
+    rw [ht.1] at k1
+    have := ih (K.runTx s c₂ h tx).1 (K.runTx s c₁ h tx).2 (K.runTx s c₂ h tx).2 k1 k2
+    rw [ht.1]
     exact ⟨this.1, by rw [this.2]⟩
 
 end NeoModel.Ledger.Comp
